@@ -18,13 +18,15 @@ import reftext
 
 PID = 'C08'
 E8 = Schema('E8', [Opt('int', 'i', '', 5), Opt('str', 's', '', b'd'), Opt('int', 'l', 'L', [b'1']),
-                   Opt('sec', 'm', 'M', sub=[Opt('int', 'x', '', 1)]), Opt('func', 'include', '', None, 'i')])
+                   Opt('sec', 'm', 'M', sub=[Opt('int', 'x', '', 1)]), Opt('func', 'include', '', None, 'i'),
+                   Opt('sec', 'sec', '', sub=[Opt('int', 'x', '', 1)])])
 CHAIN = 10
 
 FILES = {
     'ok.conf': b'i = 7\n', 'syn.conf': b'i = =\n', 'dq.conf': b's = "abc', 'sq.conf': b"s = 'abc", 'cm.conf': b'/* abc',
     'bad1.conf': b'i = x\n', 'inc2.conf': b'include("bad1.conf")\n', 'incbad1.conf': b'include("bad1.conf")\n',
     'self.conf': b'include("self.conf")\n', 'dqinc.conf': b's = "abc',
+    'sec.conf': b'sec { x = 2 }\n', 'secbad.conf': b'sec {\nx = bad }\n',
 }
 for k in range(1, CHAIN + 1):
     FILES['c%d.conf' % k] = (b'include("c%d.conf")\n' % (k + 1)) if k < CHAIN else b'i = 10\n'
@@ -40,17 +42,19 @@ EVENTS = {
     'inc1': ('buf', b'include("bad1.conf")'), 'inc1f': ('file', b'incbad1.conf'),
     'inc2': ('buf', b'include("inc2.conf")'), 'incdq': ('buf', b'include("dqinc.conf")'),
     'incself': ('buf', b'include("self.conf")'), 'incmiss': ('buf', b'include("nope.conf")'), 'incdir': ('buf', b'include("d")'),
+    'oksecf': ('file', b'sec.conf'), 'incsecbad': ('buf', b'include("secbad.conf")'),     # a single section entered from a named source
     'reinit': ('reinit', None), 'switch': ('switch', None),
 }
-KEEP = ('ok', 'okf', 'reinit', 'switch')     # events with a lasting, specified effect on the stores
+KEEP = ('ok', 'okf', 'oksecf', 'reinit', 'switch')     # events with a lasting, specified effect on the stores
 ORDER = ['ok', 'okf', 'syn', 'synf', 'dq', 'dqf', 'dq0', 'sq', 'sqf', 'cm', 'cmf', 'esc', 'range', 'inc1', 'inc1f', 'inc2', 'incdq',
-         'incself', 'incmiss', 'incdir', 'reinit', 'switch']
+         'incself', 'incmiss', 'incdir', 'oksecf', 'incsecbad', 'reinit', 'switch']
 
 PROBES = {
     'P1-plain': b'i = 8 l += {2} m { x = 3 }',
     'P2-quoted-commented': b's = "q\\"x" # c\n i = 9 /* z */ l = {4}',
     'P3-include-full-depth': b'include("c1.conf")',
     'P4-error-with-diagnostics': b'i = 7\ns = {',
+    'P5-error-inside-a-single-section': b'sec {\nx = bad }',
 }
 
 
@@ -99,7 +103,8 @@ def live_probe_case(hist):
     other = 'B' if cur == 'A' else 'A'
     return Case(fixture_lines() + lines + ['note probe', 'parse_buf %s %s' % (cur, enc(PROBES['P1-plain'])), 'dump %s 0' % cur, 'dump %s 0' % other,
                                            'parse_buf %s %s' % (other, enc(PROBES['P4-error-with-diagnostics'])), 'dump %s 0' % other,
-                                           'parse_buf %s %s' % (cur, enc(PROBES['P3-include-full-depth'])), 'dump %s 0' % cur], fork=True, horizon=20)
+                                           'parse_buf %s %s' % (cur, enc(PROBES['P3-include-full-depth'])), 'dump %s 0' % cur,
+                                           'parse_buf %s %s' % (cur, enc(PROBES['P5-error-inside-a-single-section']))], fork=True, horizon=20)
 
 
 def after_note(res, note):
@@ -194,6 +199,14 @@ def shard(sh):
             ref = obs.get('ref-live') if need_ref else obs['live']
         if obs['live'] != ref:
             st.violation('live-context-differs after %s' % hist[-1], obs['live#script'], '\n'.join(ref), '\n'.join(obs['live']))
+        else:
+            # the diagnostics of the last live probe (an error inside a single section) do not depend on the context's past at all:
+            # they are those of the fresh process, file name and line included
+            kd = max(i for i, l in enumerate(obs['live']) if l.startswith('dump '))
+            tail = obs['live'][kd + 1:]
+            want = refs[('fresh', 'P5-error-inside-a-single-section')][1:-1]
+            if tail != want:
+                st.violation('live-diagnostics-depend-on-history after %s' % hist[-1], obs['live#script'], '\n'.join(want), '\n'.join(tail))
         st.outcome('\n'.join(obs['live']))
         key = '\n'.join(obs['key'])
         st.nontriv(key)
